@@ -30,7 +30,7 @@ def _params(h, fzero=False):
 
 @harness('C16/constants+pizzetti', functions=[FG + n for n in ('equatorial_normal_gravity', 'polar_normal_gravity',
                                                                  'first_eccentricity_squared', 'second_eccentricity_squared',
-                                                                 'linear_eccentricity', 'normal_gravity_constant')], max_paths=8)
+                                                                 'linear_eccentricity', 'normal_gravity_constant')], max_paths=8, conc_tol=1e-10)
 def pizzetti(h):
     """defining identities of the derived constants and Pizzetti's theorem for f in [1e-6, 0.2]"""
     a, f, GM, w, b = _params(h)
@@ -63,7 +63,7 @@ def sphere(h):
     h.check('ge > 0 and gp > 0', h.gt(ge, 0.0) & h.gt(gp, 0.0))
 
 
-@harness('C16/somigliana', functions=[FG + 'normal_gravity'], max_paths=16)
+@harness('C16/somigliana', functions=[FG + 'normal_gravity'], max_paths=16, conc_tol=1e-9)
 def somigliana(h):
     """normal gravity: equator -> ge, poles -> gp, symmetric in latitude, closed-form height factor"""
     a, f, GM, w, b = _params(h)
